@@ -149,7 +149,7 @@ func oracle(c core.Case, out []string) []core.Finding {
 			}
 		case "svcblock":
 			// a committed block: its txs must be indexed whatever happens to the block's own events
-			if !strings.HasPrefix(o, "ok") {
+			if !strings.HasPrefix(o, "ok") && o != "queued" {
 				add("indexerservice.stalled", fmt.Sprintf("op %d: the indexer service did not finish the block (%s)", i, o))
 				return fs
 			}
@@ -158,13 +158,13 @@ func oracle(c core.Case, out []string) []core.Finding {
 				items = append(items, idxItem{h, idx, it.Tx, indexedEvents(it.Events)})
 				viaService[string(txHash(it.Tx))] = true
 			}
-			if o == "ok" {
+			if o == "ok" || (o == "queued" && !reservedBlockKey(append(decTxEvents(m["begin"]), decTxEvents(m["end"])...))) {
 				if _, again := blocks[h]; again {
 					blocks[h] = nil
 				} else {
 					blocks[h] = indexedEvents(append(decTxEvents(m["begin"]), decTxEvents(m["end"])...))
 				}
-			} else if !reservedBlockKey(append(decTxEvents(m["begin"]), decTxEvents(m["end"])...)) {
+			} else if o != "queued" && !reservedBlockKey(append(decTxEvents(m["begin"]), decTxEvents(m["end"])...)) {
 				add("indexerservice.block-rejected-without-cause", fmt.Sprintf("op %d: the block index refused block %d whose events do not use the reserved key", i, h))
 			}
 		case "get":
@@ -307,17 +307,20 @@ func classify(prefix string, ast []cond, evs []map[string][]string, heightKey st
 			}
 		}
 	}
-	rangeCount := map[string]int{}
+	lowerCount, upperCount := map[string]int{}, map[string]int{}
 	undotted, numericOdd, overflow := false, false, false
 	for _, c := range ast {
 		if c.Op == "ex" && !strings.Contains(c.Key, ".") {
 			undotted = true
 		}
-		if c.Op == "le" || c.Op == "ge" || c.Op == "lt" || c.Op == "gt" {
-			rangeCount[c.Key]++
+		switch c.Op {
+		case "gt", "ge":
+			lowerCount[c.Key]++
 			if c.Op == "gt" && c.S == "9223372036854775807" {
 				overflow = true
 			}
+		case "lt", "le":
+			upperCount[c.Key]++
 		}
 		if c.Kind == 'i' {
 			// values under a numerically compared key: all canonical, or all digit-free
@@ -339,8 +342,23 @@ func classify(prefix string, ast []cond, evs []map[string][]string, heightKey st
 			}
 		}
 	}
+	// merging the range conditions of a key into one interval is exact for one lower and one upper
+	// bound over single-valued attributes; it is not for two bounds of the same side, nor when one
+	// item carries several values of the key (different values may satisfy the two conditions)
 	merged := false
-	for _, n := range rangeCount {
+	for k, n := range lowerCount {
+		if n > 1 {
+			merged = true
+		}
+		if upperCount[k] > 0 {
+			for _, ev := range evs {
+				if len(ev[k]) > 1 {
+					merged = true
+				}
+			}
+		}
+	}
+	for _, n := range upperCount {
 		if n > 1 {
 			merged = true
 		}
